@@ -165,6 +165,13 @@ def errOK (s : Str) (line : String) : List Viol :=
           (if pos == (s.length : Int) then [] else ["eof-position-not-at-end+heredoc"])
         else [])
 
+/-- does the text hold `$(`, a backquote, `<(`, `>(` or `$[` (openers of nested parsers / arithmetic)? -/
+def hasSubstOpener : Str → Bool
+  | [] => false
+  | c :: rest =>
+    c == '`' || ((c == '$' || c == '<' || c == '>') && rest.head? == some '(') ||
+    (c == '$' && rest.head? == some '[') || hasSubstOpener rest
+
 /-- relational verdicts: `rel <prop>:<params> <src> <outcome>...` → list of signatures -/
 def relEval (prop : String) (params : List String) (src : Str) (outs : List String) : List Viol :=
   match prop, params, outs with
@@ -236,7 +243,13 @@ def relEval (prop : String) (params : List String) (src : Str) (outs : List Stri
               | some _ => ["heredoc-not-a-heredoc-node"])
            | _ => []) ++ go f rest
         | _, _ => []
+      -- "parsing resumes after it": no returned part starts inside the text of a body (between its start and the end of its delimiter line)
+      let rec inBody : Nat → List Nat → Nat → Bool
+        | 0, _, _ => false
+        | f + 1, _ :: bs :: be :: _ :: rest, p => (bs ≤ p && p ≤ be) || inBody f rest p
+        | _, _, _ => false
       go (nums.length + 1) (nums.dropLast) ++
+      (if parts.any (fun m => inBody (nums.length + 1) nums.dropLast m.pos.1) then ["resumes-inside-body"] else []) ++
       (if nextStart == 0 then [] else
         if parts.any (fun m => m.pos.1 == nextStart) then [] else ["next-part-misplaced"])
   | "C07", [openAt, bodyAt], [alone, embedded] =>
@@ -311,7 +324,11 @@ def relEval (prop : String) (params : List String) (src : Str) (outs : List Stri
       | none => ["strictmode-changes-other-outcome"]
     else ["strictmode-changes-other-outcome"]
   | "C17proceed", [], [plain, proc] =>
-    if plain == proc then []
+    -- with `proceedonerror` a NotImplementedError may still escape from a NESTED parser (they never proceed: D14) or from word
+    -- expansion (`$[…]`, `$((…))` raise directly); an input without any substitution opener has neither, wherever the unsupported
+    -- construct stands (first or later top-level command)
+    if proc == "EXN NI" && !hasSubstOpener src then ["proceed-raises-notimplemented"]
+    else if plain == proc then []
     else if plain == "EXN NI" then
       (if proc.startsWith "OK " || proc.startsWith "ONE " then
          (if (proc.splitOn "kind=\"unimplemented\"").length > 1 then [] else ["proceed-without-unimplemented-node"])
